@@ -4,6 +4,8 @@ mod edges;
 mod elem;
 mod exec;
 mod exec_range;
+mod exec_clone;
+mod exec_misc;
 mod galloc;
 mod mcmodel;
 mod track;
